@@ -373,3 +373,45 @@ Proof.
   destruct (Z.ltb_spec ((zmax_list codes - zp) * sn) sd) as [H|H]; [|discriminate].
   intros _ c Hc. pose proof (zmax_list_ge codes c Hc). nia.
 Qed.
+
+(* ---------- parts of a tensor along one axis ---------- *)
+Lemma offsets_from_length start es : length (offsets_from start es) = length es.
+Proof. revert start. induction es as [|e t IH]; intros start; cbn [offsets_from length]; [reflexivity|]. now rewrite IH. Qed.
+
+(* every position of the axis lies in exactly the part find_slice names: existence ... *)
+Theorem find_slice_total_lemma es : forall start k i0,
+  Forall (fun e => 0 < e) es -> start <= k < start + zsum es ->
+  exists i, find_slice start es k i0 = Some (i0 + i)%nat /\ (i < length es)%nat /\
+            nth i (offsets_from start es) 0 <= k < nth i (offsets_from start es) 0 + nth i es 0.
+Proof.
+  induction es as [|e t IH]; intros start k i0 Hpos Hk.
+  - cbn [zsum fold_right] in Hk. lia.
+  - inversion Hpos as [|? ? He Ht]; subst. cbn [find_slice offsets_from zsum fold_right] in *. fold (zsum t) in Hk.
+    destruct (Z.leb_spec start k) as [H1|H1]; [|lia]. destruct (Z.ltb_spec k (start + e)) as [H2|H2]; cbn [andb].
+    + exists 0%nat. split; [f_equal; lia|]. split; [cbn; lia|]. cbn [nth]. lia.
+    + destruct (IH (start + e) k (S i0) Ht ltac:(lia)) as [i [Hf [Hl Hr]]].
+      exists (S i). split; [rewrite Hf; f_equal; lia|]. split; [cbn [length]; lia|]. cbn [nth]. exact Hr.
+Qed.
+
+Lemma offsets_ge es : forall start j,
+  Forall (fun e => 0 <= e) es -> (j < length es)%nat -> start <= nth j (offsets_from start es) 0.
+Proof.
+  induction es as [|e t IH]; intros start j Hpos Hj; [cbn in Hj; lia|].
+  inversion Hpos as [|? ? He Ht]; subst. destruct j as [|j]; cbn [offsets_from nth]; [lia|].
+  cbn [length] in Hj. specialize (IH (start + e) j Ht ltac:(lia)). lia.
+Qed.
+
+(* ... and the parts do not overlap: a later part starts where the earlier ones have ended *)
+Theorem slices_disjoint_lemma es : forall start i j,
+  Forall (fun e => 0 <= e) es -> (i < j)%nat -> (j < length es)%nat ->
+  nth i (offsets_from start es) 0 + nth i es 0 <= nth j (offsets_from start es) 0.
+Proof.
+  induction es as [|e t IH]; intros start i j Hpos Hij Hj; [cbn in Hj; lia|].
+  inversion Hpos as [|? ? He Ht]; subst. destruct j as [|j]; [lia|]. cbn [length] in Hj.
+  destruct i as [|i]; cbn [offsets_from nth].
+  - apply (offsets_ge t (start + e) j Ht). lia.
+  - apply IH; [exact Ht | lia | lia].
+Qed.
+
+Example offsets_example : offsets_from 0 [3; 1; 4] = [0; 3; 4].
+Proof. vm_compute. reflexivity. Qed.
